@@ -66,6 +66,7 @@ def make_cfg(seed, i, for_ref=False):
         cfg["args"]["rhobeg"] = float(0.3 * margin)
         cfg["args"]["rhoend"] = float(0.3 * margin * 1e-4)
         up.pop("init.random_initial_directions", None)
+        up.pop("init.run_in_parallel", None)
         if for_ref:   # every projected run costs seconds: keep the enumeration short
             cfg["args"]["maxfun"] = min(cfg["args"]["maxfun"], 18)
     elif v < 0.22:
